@@ -81,7 +81,7 @@ Definition run_fs (st : option Loaded) (rt : option Routing) (F : fs) (op : stri
         match (do x <- Sid Ld s; sid_path Ld x (default_cfg Ld cfg)) with
         | Ok (Some p) =>
             let dp := sidecar Ld p in
-            (L "ok", fs_add F dp (if String.eqb kind "dir" then Dir else if String.eqb kind "empty" then File CEmpty else File CCorrupt))
+            (L "ok", fs_add F dp (if String.eqb kind "dir" then Dir else if String.eqb kind "empty" || String.eqb kind "trunc:0" then File CEmpty else File CCorrupt))
         | _ => pure bad
         end
     | "crash_write", [L cfg; L s; d; L mode; L n] =>
